@@ -350,7 +350,11 @@ def extract_fn(relpath, qual, ann):
         else:
             ed.add(ts, ts, "verif_out.push(", "D2", "closure result becomes `push(..)`")
             ed.add(te, te, "); verif_i = verif_i + 1;", None)
-        ed.add(bs1, chain_end, " verif_out }", None)
+        result_block = (not tries) and bool(re.match(r"^Ok\s*\(", ttxt))
+        if result_block:
+            ed.log.append({"file": relpath, "line": _srcline(src, chain_start), "rule": "D2",
+                           "note": "collect into Result without `?`: an Err inside the closure now returns from the function immediately (the original returns it at the later `?` on the collected value)"})
+        ed.add(bs1, chain_end, " Ok(verif_out) }" if result_block else " verif_out }", None)
     # D3: `for PAT in EXPR { BODY }` -> index `while` loop over EXPR (BODY copied by span; `continue` gets the increment)
     for k, inv in (ann.get("forloops") or {}).items():
         k = int(k)
